@@ -855,3 +855,53 @@ def rule_drain_after_stop(prog, res, fname, pass_names, rule="R-DRAIN"):
                      "%s can read its stop flag and leave without another pass over its input: frames the producer committed just before raising the flag stay in the ring, are missing from this acquisition and reappear in the next one" % fname,
                      {"path_blocks": w})
     return n
+
+
+def rule_join_fresh(prog, res, rule="R-JOIN-FRESH"):
+    """'Nothing from a stopped acquisition is delivered later', also to a client
+    that starts to monitor in a later acquisition.  A reader that registers joins
+    where reader_initialize puts it.  Either that is the writer's cursor (position
+    := head: nothing committed before the join is replayed), or - when a new reader
+    joins at the start of the current lap - every acquisition boundary must flush
+    the monitor reader whether or not it is registered yet; a stop-time flush that
+    is guarded by a test of the reader's registration leaves the stale lap for a
+    reader that registers later."""
+    ri = prog.func("reader_initialize")
+    res.touched(ri)
+    joins_at_head = False
+    pos_store = None
+    for b, i, s in ri.all_stmts():
+        for lv, op, rhs, w in ir.writes_of(s):
+            root, chain = ir.field_chain(lv)
+            if any(fld == "pos" for _, fld in chain) and any(fld == "holds" for _, fld in chain):
+                pos_store = s
+                r0 = ir.strip(rhs) if isinstance(rhs, dict) else None
+                if isinstance(r0, dict) and r0.get("k") == "mem" and r0.get("f") == "head":
+                    joins_at_head = True
+    if pos_store is None:
+        raise AnalysisBroken("reader_initialize no longer stores the new reader's hold position")
+    inst = "a reader that registers after a stop is not handed the stopped acquisition's frames"
+    if joins_at_head:
+        res.oblige(rule, inst, True, "a new reader joins at the writer's head", ri.loc(pos_store))
+        return
+    f = prog.func("acquire_stop")
+    res.touched(f)
+    maps = [(b.id, i, s) for b, i, s in f.all_stmts() for c in calls(s, "channel_read_map")
+            if "monitor" in (ir.ap(c["args"][1]) or "")]
+    if not maps:
+        raise AnalysisBroken("acquire_stop no longer flushes the monitor reader")
+
+    def reg_test(cn, lab, blk):
+        # a branch that reads the reader's id: the flush is reached only through its 'registered' edge
+        for y in ir.walk(cn):
+            if isinstance(y, dict) and y.get("k") == "mem" and y.get("f") == "id" and "reader" in (ir.ap(y) or ""):
+                return True
+        return False
+    guarded = [m for m in maps if paths.edge_dominated(f, (m[0], m[1]), reg_test)[0]]
+    if guarded:
+        res.fail(rule, inst, "%s|acquire_stop|monitor.reader.id" % rule, f.loc(guarded[0][2]),
+                 "reader_initialize places a new reader at the start of the current lap (position 0, not head) and acquire_stop flushes the "
+                 "monitor reader only if it is already registered (the flush is guarded by monitor.reader.id): a client whose first "
+                 "acquire_map_read happens in a later acquisition is handed the frames of the stopped acquisition(s) still in that lap first")
+    else:
+        res.oblige(rule, inst, True, "acquire_stop flushes the monitor reader unconditionally (registering it)", f.loc(maps[0][2]))
